@@ -814,6 +814,7 @@ static void fieldCase(Rng& r, Ctx& c, int sim, int variant)
     if (cs.model.covs[0].ranges[1] != cs.model.covs[0].ranges[0]) cs.model.covs[0].ranges[1] = cs.model.covs[0].ranges[0] * r.uni(0.4, 0.6);
     else cs.model.covs[0].ranges[1] = cs.model.covs[0].ranges[0];
     cs.spdeChol = r.irange(0, 1);
+    cs.spdeChol = (int)((c.icase / 16) % 2); // both solvers in every run (the draw above is kept so that the other draws are unchanged)
     cs.R        = th ? 2000 : 400;
     cs.batch    = 100;
     cs.sig += fmt(":chol=%d", cs.spdeChol);
